@@ -608,6 +608,9 @@ def prepare_file_offset_table(data_file_path: str) -> Optional[int]:
     if not file_offset_table.is_valid():
         console.info("Preparing file offset table for [%s] ... " % data_file_path, end="", flush=True)
         line_number = 0
+        # build the table under a temporary name so that an interrupted build never leaves a partial but seemingly valid table
+        final_offset_table_path = file_offset_table.offset_table_path
+        file_offset_table.offset_table_path = f"{final_offset_table_path}.tmp"
         with file_offset_table:
             with open(data_file_path, encoding="utf-8") as data_file:
                 while True:
@@ -617,6 +620,7 @@ def prepare_file_offset_table(data_file_path: str) -> Optional[int]:
                     line_number += 1
                     if line_number % 50000 == 0:
                         file_offset_table.add_offset(line_number, data_file.tell())
+        os.replace(file_offset_table.offset_table_path, final_offset_table_path)
         console.println("[OK]")
         return line_number
     else:
